@@ -131,6 +131,11 @@ impl<'a> Lexer<'a> {
                         break;
                     }
                 }
+                // A CRLF line ending inside a multi-line literal is a line break like LF: keep only the '\n',
+                // so converting a file's line endings does not change the literal's value.
+                Some('\r') if triple && self.peek_next() == Some('\n') => {
+                    self.advance();
+                }
                 Some('\n') if !triple => {
                     self.errors.push(CompileError::new(
                         "Unterminated string (newline in single-quoted string)".to_string(),
